@@ -51,6 +51,9 @@ Templates == <<
   [abbr |-> "p{q${0}}",               items |-> <<E(0,"p",NONE,NONE,"q")>>,                                                        lo |-> 0, hi |-> 0],
   \* a placeholder outside (after) the repeated item stands for the whole supplied text, as it does without any repeater
   [abbr |-> "li{$#}*+p{$#}",          items |-> <<E(0,"li",NONE,NONE,PH), E(0,"p",NONE,NONE,PHW)>>,                                lo |-> 1, hi |-> 1],
+  \* a placeholder that is evaluated after an explicitly repeated sibling inside the copy
+  [abbr |-> "li*>b*2+i{$#}",          items |-> <<E(0,"li",NONE,NONE,""), X(E(1,"b",NONE,NONE,""), 2), E(1,"i",NONE,NONE,PH)>>,     lo |-> 1, hi |-> 3],
+  [abbr |-> "ul>li*>b*2+i[title=$#]", items |-> <<E(0,"ul",NONE,NONE,""), E(1,"li",NONE,NONE,""), X(E(2,"b",NONE,NONE,""), 2), E(2,"i",PH,NONE,"")>>, lo |-> 2, hi |-> 4],
   [abbr |-> "ul>(li>b{$#})*+i{[$#]}", items |-> <<E(0,"ul",NONE,NONE,""), E(1,"li",NONE,NONE,""), E(2,"b",NONE,NONE,PH), E(1,"i",NONE,NONE,PHW2)>>, lo |-> 2, hi |-> 3] >>
 
 VARIABLES tpl, lines
